@@ -347,9 +347,15 @@ class C12(Property):
         return self._execute(self.bin, cases)
 
     def _execute(self, binpath, cases, env=None):
-        rc, out, res = vlib.go_run(binpath, cases, tag="c12", timeout=900, env=env)
-        if rc != 0 or len(res) != len(cases):
-            raise ExecError("c12 executor rc=%s: %s" % (rc, out[-3000:]))
+        # one executor process per 400 cases: every collection.Cache leaves a statistics goroutine behind,
+        # and the quiescence detection looks at all goroutines
+        res = []
+        for i in range(0, len(cases), 400):
+            chunk = cases[i:i + 400]
+            rc, out, r = vlib.go_run(binpath, chunk, tag="c12", timeout=900, env=env)
+            if rc != 0 or len(r) != len(chunk):
+                raise ExecError("c12 executor rc=%s: %s" % (rc, out[-3000:]))
+            res += r
         obs = []
         for c, r in zip(cases, res):
             if r.get("err"):
